@@ -58,9 +58,9 @@ def main():
     fcntl.flock(lock, fcntl.LOCK_EX)
     ck = common.Check(pid, args.tier)
     # a check that does not come to an end says nothing - and must not look like a pass to whoever waits for it: after
-    # the budget (VERIF_BUDGET seconds; default 30 min quick, 5 h thorough) it reports that, as an alarm, and stops
+    # the budget (VERIF_BUDGET seconds; default 60 min quick, 6 h thorough) it reports that, as an alarm, and stops
     import threading
-    budget = float(os.environ.get("VERIF_BUDGET", 1800 if args.tier == "quick" else 18000))
+    budget = float(os.environ.get("VERIF_BUDGET", 3600 if args.tier == "quick" else 21600))
 
     def out_of_time():
         try:
